@@ -303,6 +303,204 @@ def check_data(ck, c, g, rng, mconn=None, layouts=None, stats=None):
 
 
 # ---------------------------------------------------------------------------------------------
+# the dual is a fully functional, self-consistent grid
+
+CONN_NAMES = ["n_nodes_per_face", "node_face_connectivity", "edge_node_connectivity", "face_edge_connectivity",
+              "edge_face_connectivity", "face_face_connectivity"]
+
+
+def real(row):
+    return [x for x in row if x != FILL]
+
+
+def canon_tables(tabs):
+    """compare the way C03 does: rows as sets / multisets, edges as node pairs, tables addressed through the pairs"""
+    out = {}
+    for name, v in tabs.items():
+        if isinstance(v, str):
+            out[name] = v
+    en = tabs.get("edge_node_connectivity")
+    pairs = None
+    if isinstance(en, list):
+        pairs = [tuple(sorted(e)) for e in en]
+        out["edge_node_connectivity"] = sorted(pairs)
+    if isinstance(tabs.get("n_nodes_per_face"), list):
+        out["n_nodes_per_face"] = list(tabs["n_nodes_per_face"])
+    if isinstance(tabs.get("node_face_connectivity"), list):
+        out["node_face_connectivity"] = [sorted(real(r)) for r in tabs["node_face_connectivity"]]
+    if isinstance(tabs.get("face_face_connectivity"), list):
+        out["face_face_connectivity"] = [sorted(real(r)) for r in tabs["face_face_connectivity"]]
+    if isinstance(tabs.get("face_edge_connectivity"), list):
+        if pairs is None:
+            out["face_edge_connectivity"] = "edge table unavailable"
+        else:
+            out["face_edge_connectivity"] = [sorted(pairs[e] if 0 <= e < len(pairs) else ("bad", e) for e in real(r))
+                                             for r in tabs["face_edge_connectivity"]]
+    if isinstance(tabs.get("edge_face_connectivity"), list):
+        if pairs is None or len(pairs) != len(tabs["edge_face_connectivity"]):
+            out["edge_face_connectivity"] = "edge table unavailable / length differs"
+        else:
+            out["edge_face_connectivity"] = sorted((p, sorted(real(r))) for p, r in zip(pairs, tabs["edge_face_connectivity"]))
+    return out
+
+
+def present_tables(grid):
+    """connectivity variables already stored in the grid's dataset (nothing is derived)"""
+    out = {}
+    for name in CONN_NAMES:
+        if name in grid._ds:
+            out[name] = np.asarray(grid._ds[name].values).tolist()
+    return out
+
+
+def derived_tables(grid):
+    out = {}
+    for name in CONN_NAMES:
+        try:
+            with warnings.catch_warnings():
+                warnings.simplefilter("ignore")
+                out[name] = np.asarray(getattr(grid, name).values).tolist()
+        except Exception as ex:
+            out[name] = "raises " + type(ex).__name__
+    return out
+
+
+def fresh_from(grid):
+    import uxarray as ux
+    return ux.Grid.from_topology(np.asarray(grid.node_lon.values).copy(), np.asarray(grid.node_lat.values).copy(),
+                                 np.asarray(grid.face_node_connectivity.values).copy(), fill_value=FILL)
+
+
+def subset_faces(grid, kind, idx):
+    """corner positions of the faces of grid.isel(kind=idx), as a sorted list (or the exception name)"""
+    try:
+        with warnings.catch_warnings():
+            warnings.simplefilter("ignore")
+            sub = grid.isel(**{kind: idx})
+        lon, lat = np.asarray(sub.node_lon.values), np.asarray(sub.node_lat.values)
+        return sorted(tuple(sorted((round(float(lon[i]), 9), round(float(lat[i]), 9)) for i in real(r)))
+                      for r in sub.face_node_connectivity.values.tolist())
+    except Exception as ex:
+        return "raises " + type(ex).__name__
+
+
+def check_consistency(ck, c, d, rng, level="grid", case_extra=None, stats=None):
+    """(i) every connectivity variable the dual carries, and every one derived from it afterwards, equals what a
+    fresh Grid.from_topology(dual.node_lon, dual.node_lat, dual.face_node_connectivity) derives;
+    (iii) node / face subsets of the dual select the same faces as subsets of that fresh grid"""
+    info = {"level": level, "closed": c["closed"], "mesh_class": c["mesh_class"]}
+    case = {k: c[k] for k in ("table", "lonlat", "n_node", "closed", "mesh_class", "name", "kind", "nodes")}
+    case.update(case_extra or {})
+    case["consistency"] = True
+    if int(d.n_face) == 0:
+        return
+    try:
+        pres = canon_tables(dict(present_tables(d), edge_node_connectivity=present_tables(d).get("edge_node_connectivity")))
+        pres = {k: v for k, v in pres.items() if k in present_tables(d)}
+        fresh = fresh_from(d)
+        ref = canon_tables(derived_tables(fresh))
+    except Exception as ex:
+        ck.fail("raises", case, dict(info, where="fresh grid from the dual's own topology"), detail=repr(ex))
+        return
+    for name, v in pres.items():
+        if name in ("face_edge_connectivity", "edge_face_connectivity") and isinstance(v, str):
+            continue
+        if v != ref.get(name):
+            ck.fail("dual_consistency", case, dict(info, variable=name, stage="carried by the returned dual"),
+                    detail="%s stored in the dual: %s ; derived from the dual's own faces: %s" % (
+                        name, str(v)[:300], str(ref.get(name))[:300]))
+            return
+    # subsetting before anything is derived on the dual
+    nn, nf = int(d.n_node), int(d.n_face)
+    picks = [("n_node", sorted(rng.sample(range(nn), min(nn, rng.randrange(1, 4))))),
+             ("n_face", sorted(rng.sample(range(nf), min(nf, rng.randrange(1, 4)))))]
+    for kind, idx in picks:
+        a, b = subset_faces(d, kind, idx), subset_faces(fresh, kind, idx)
+        if a != b:
+            ck.fail("dual_consistency", case, dict(info, variable="isel(%s)" % kind, stage="subset of the dual"),
+                    detail="isel(%s=%r) of the dual: %s ; of a fresh grid with the same faces: %s" % (kind, idx, str(a)[:300], str(b)[:300]))
+            return
+    got = canon_tables(derived_tables(d))
+    for name in CONN_NAMES:
+        if got.get(name) != ref.get(name):
+            ck.fail("dual_consistency", case, dict(info, variable=name, stage="derived on the returned dual"),
+                    detail="%s of the dual: %s ; of a fresh grid with the same faces: %s" % (
+                        name, str(got.get(name))[:300], str(ref.get(name))[:300]))
+            return
+    if stats is not None:
+        stats["duals_compared_with_a_fresh_grid"] = stats.get("duals_compared_with_a_fresh_grid", 0) + 1
+
+
+def case_from_grid(g, name, kind):
+    """a grid produced by the implementation (a dual) as the primal of the next round"""
+    t = g.face_node_connectivity.values.tolist()
+    faces = [real(r) for r in t]
+    n = int(g.n_node)
+    lon, lat = np.asarray(g.node_lon.values).tolist(), np.asarray(g.node_lat.values).tolist()
+    nodes = [list(p) for p in zip(np.asarray(g.node_x.values).tolist(), np.asarray(g.node_y.values).tolist(),
+                                  np.asarray(g.node_z.values).tolist())]
+    ef = {}
+    for fi, f in enumerate(faces):
+        for i in range(len(f)):
+            a, b = f[i], f[(i + 1) % len(f)]
+            ef.setdefault((min(a, b), max(a, b)), []).append(fi)
+    simple = all(len(set(f)) == len(f) >= 3 for f in faces)
+    closed = simple and bool(ef) and all(len(v) == 2 for v in ef.values())
+    inc = incident(faces, n)
+    val = [len(x) for x in inc]
+    c = {"kind": kind, "name": name, "table": t, "lonlat": [lon, lat], "n_node": n, "closed": bool(closed), "nodes": nodes,
+         "mesh_class": ("closed" if closed else "partial") + ("" if (not closed or min(val) >= 3) else "_valence2"),
+         "extent_class": None, "simple": simple,
+         "duplicate_nodes": len(set(zip(lon, lat))) != n}
+    return c
+
+
+def iterate_duals(ck, c0, d1, ok, levels=2, stats=None, rng=None):
+    """(ii) the dual of the dual (and once more) must satisfy the clauses of a first dual, with the previous dual —
+    the very object get_dual returned — as the primal"""
+    prev_c, prev = c0, d1
+    for lvl in range(2, 2 + levels):
+        if int(prev.n_face) < 1:
+            return
+        cc = case_from_grid(prev, "%s | dual^%d" % (c0["name"], lvl - 1), c0["kind"])
+        inc = incident([real(r) for r in cc["table"]], cc["n_node"])
+        if cc["duplicate_nodes"] or not cc["simple"] or not any(len(x) >= 3 for x in inc) \
+                or max(len(x) for x in inc) > 8 or max(len(real(r)) for r in cc["table"]) > 8:
+            if stats is not None:
+                stats["iteration_stopped_outside_quantifier"] = stats.get("iteration_stopped_outside_quantifier", 0) + 1
+            return
+        prepare(cc)
+        extra = {"iterate": lvl, "root": {k: c0[k] for k in ("table", "lonlat", "n_node", "closed", "mesh_class", "name", "kind", "nodes")}}
+        info = {"level": "dual^%d" % lvl, "closed": cc["closed"], "mesh_class": cc["mesh_class"], "root_class": c0["mesh_class"]}
+        case = {k: cc[k] for k in ("table", "lonlat", "n_node", "closed", "mesh_class", "name", "kind", "nodes")}
+        case.update(extra)
+        try:
+            with warnings.catch_warnings():
+                warnings.simplefilter("ignore")
+                nxt_d = prev.get_dual()
+            conn = nxt_d.face_node_connectivity.values.tolist()
+        except Exception as ex:
+            ck.fail("raises", case, info, detail="get_dual on the dual returned by get_dual: " + repr(ex))
+            return
+        mconn = None
+        if ok:
+            try:
+                m = ck.run_model("c18dual", [model_line(cc, prev)])[0]
+                if not (m and m[0] == "ERR"):
+                    mconn = m[0]
+            except Exception:
+                pass
+        spec_check(ck, cc, prev, nxt_d, conn, tag="dual^%d" % lvl, mconn=mconn, case_extra=extra)
+        check_nodes(ck, cc, prev, nxt_d, level="dual^%d" % lvl, case_extra=extra)
+        if lvl == 2:
+            check_consistency(ck, cc, nxt_d, rng, level="dual^%d" % lvl, case_extra=extra, stats=stats)
+        if stats is not None:
+            key = "dual^%d of a %s grid" % (lvl, c0["mesh_class"])
+            stats[key] = stats.get(key, 0) + 1
+        prev_c, prev = cc, nxt_d
+
+
+# ---------------------------------------------------------------------------------------------
 # histories on one Grid object: public mutators of what the dual depends on, get_dual in between
 
 HISTORY_OPS = ["centers_welzl", "centers_avg", "set_face_lonlat", "set_face_xyz", "normalize"]
@@ -710,11 +908,13 @@ def main(ck):
                       "deletion; all renumbered, random start corner, random rigid rotation; data arrays of rank 1-3 with the grid "
                       "dimension first / middle / last (other axes sometimes as long as an element count); histories on one Grid: "
                       "get_dual / UxDataArray.get_dual before, between and after construct_face_centers(both methods), "
-                      "face_lon/face_lat and face_x/y/z setters, normalize_cartesian_coordinates, repeated calls; node valence <= 8, face "
+                      "face_lon/face_lat and face_x/y/z setters, normalize_cartesian_coordinates, repeated calls; the returned dual "
+                      "compared with a fresh grid built from its own faces (stored + derived connectivity, node/face subsets); "
+                      "dual of the dual and third dual on closed and partial grids; node valence <= 8, face "
                       "size 3..8, no duplicate nodes; non-trivial = at least one node with >= 3 faces; distinct = "
                       "distinct (table, coordinates)")
     hist, cls_hist, val_hist, ext_hist, conv_hist = {}, {}, {}, {}, {}
-    data_stats, hist_stats = {}, {}
+    data_stats, hist_stats, self_stats = {}, {}, {}
     results = []
     geo_pos = geo_neg = 0
     for idx, c in enumerate(cases):
@@ -760,6 +960,21 @@ def main(ck):
             ck.sample({"kind": c["kind"], "name": c["name"], "mesh_class": c["mesh_class"],
                        "primal_faces": faces[:4], "dual_rows_impl": [["F" if x == FILL else x for x in r] for r in res["conn"][:4]]})
     tm["clauses_and_data"] = round(time.time() - t0, 1)
+    t0 = time.time()
+    # ---- the dual as a grid of its own: consistency with a fresh grid, subsets, iterated duals -------
+    for idx, (c, res) in enumerate(zip(cases, results)):
+        if res is None or len(c["table"]) > 400:
+            continue
+        r = ck.rng.random()
+        if r < (0.3 if ck.tier == "quick" else 0.3):
+            try:
+                d1 = build_grid(c).get_dual()        # a dual nothing has been derived on yet
+            except Exception:
+                continue
+            if r < (0.1 if ck.tier == "quick" else 0.12) or (not c["closed"] and r < 0.2):
+                iterate_duals(ck, c, d1, ok, levels=2, stats=self_stats, rng=ck.rng)
+            check_consistency(ck, c, d1, ck.rng, stats=self_stats)
+    tm["dual_as_grid"] = round(time.time() - t0, 1)
     t0 = time.time()
     # ---- histories on one Grid object ----------------------------------------------------------
     n_hist = 0
@@ -870,6 +1085,7 @@ def main(ck):
         "phase_seconds": tm,
         "data_layouts_checked": dict(sorted(data_stats.items())), "histories": n_hist,
         "history_ops": dict(sorted(hist_stats.items())),
+        "dual_as_grid": dict(sorted(self_stats.items())),
         "case_kinds": hist, "mesh_classes": cls_hist, "node_valence_histogram": {str(k): v for k, v in sorted(val_hist.items())},
         "face_extent_classes": ext_hist, "face_convexity": conv_hist, "model_vs_impl_rows_compared": n_corr, "rows_skipped_near_tie(<1e-9)": n_skip,
         "rows_where_the_exact_model_violates_the_ring_clause": n_model_wrong,
@@ -880,7 +1096,9 @@ def main(ck):
                           "counter-clockwise orientation was verified in exact rational arithmetic",
         "clauses_checked_on_impl": ["raises", "count", "nodes (current face_lon/face_lat, after every get_dual of a history)",
                                     "pad", "corners", "ring (closed grids)", "data_type", "data_dims (by name, grid dimension first/"
-                                    "middle/last)", "data_values", "data_grid (every grid dimension vs the dual's counts)", "jit"],
+                                    "middle/last)", "data_values", "data_grid (every grid dimension vs the dual's counts)", "jit",
+                                    "dual_consistency (carried and derived connectivity, isel subsets vs a fresh grid built from "
+                                    "the dual's own faces)", "all clauses again for the dual of the dual and the third dual"],
         "partial": "ring order is proved only under the hypothesis that the azimuth order of the face centres (what _order_nodes "
                    "measures since c8b893ff) equals the umbrella order (C18_ring_partial); the exact checker decides it for every generated mesh; face centres "
                    "are whatever Grid.face_lon/face_lat report (C04 owns them)"})
@@ -907,6 +1125,23 @@ def replay(ck, rp):
     if "history" in c:
         prepare(c)
         run_history(ck, c, c["history"])
+        return
+    if "iterate" in c or "consistency" in c:
+        root = dict(c.get("root") or c)
+        root.setdefault("extent_class", None)
+        prepare(root)
+        try:
+            d1 = build_grid(root).get_dual()
+        except Exception as ex:
+            ck.fail("raises", root, {"level": "grid"}, detail=repr(ex))
+            return
+        ok = False
+        try:
+            ok = ck.build_driver()
+        except Exception:
+            pass
+        iterate_duals(ck, root, d1, ok, levels=2, rng=ck.rng)
+        check_consistency(ck, root, d1, ck.rng)
         return
     res = run_impl(ck, c)
     if res is None:
